@@ -620,7 +620,10 @@ def check_many_suspended(n=30):
             go.wait(30)
             return k
         P.set_function('WAITHERE', wait)
-        out[k] = P.parse('WAITHERE()+1')
+        try:
+            out[k] = P.parse('WAITHERE()+1')
+        finally:
+            arrived.release()       # (an evaluation that ended without ever reaching the function must not keep the others waiting)
     ts = [threading.Thread(target=work, args=(k,)) for k in range(n)]
     for t in ts:
         t.daemon = True
